@@ -101,7 +101,10 @@ def bounded(rep, tier):
     t1 = time.time()
     cc = G.comment_cases()
     couts = [o for o in pool_map(G.run_comment, cc) if o]
-    cb = "8 construct kinds x comment distance {0, 1, 2 blank lines}, Babel"
+    lc = G.lingering_cases()
+    couts += [o for o in pool_map(G.run_lingering, lc) if o]
+    cc = cc + lc
+    cb = "8 construct kinds x comment distance {0, 1, 2 blank lines}; tagged comment before 4 message-less constructs x untagged comment x gap before a later message; Babel"
     if couts:
         w = {k: v for k, v in couts[0].items() if k != "template"}
         rep.add(Result("C20.comment-grid", VIOLATED, klass="B", backend="native-oracle", function="mako.ext.extract:MessageExtractor.extract_nodes", bound=cb, evaluations=len(cc),
